@@ -24,13 +24,15 @@ META = {
 KB = 1.380649e-23
 NA = 6.02214076e23
 LEN = {'nanometer': 1e-9, 'nm': 1e-9, 'angstrom': 1e-10, 'micrometer': 1e-6}          # metres
-EN = {'kilojoule/mole': (1e3, True), 'kcal/mol': (4184.0, True), 'joule': (1.0, False), 'eV': (1.602176634e-19, False)}
+EN = {'kilojoule/mole': (1e3, True), 'kcal/mol': (4184.0, True), 'joule': (1.0, False), 'eV': (1.602176634e-19, False),
+      # other spellings of a molar energy (the second is the form pint itself prints)
+      'kJ mol^-1': (1e3, True), 'kilojoule / mole': (1e3, True)}
 DCS = [0.5, 1.0, 1.5, 3.4, 1.2345649]          # the last ones carry 8 significant digits on purpose
 ECS = [0.6, 1.0, 2.48, 2.4789573]
 METHODS = ['toKelvin', 'toCelcius', 'toInvAngstrom', 'toInvNanometer', 'toConcentration', 'toVolumeFraction']
 ARGS = {'scalar': 0.75, 'arr1': [1.25], 'arr3': [0.5, 1.0, 2.5],
         # memory layouts other than C order: the transpose of a 2-D array and a reversed slice
-        'arr2dT': 'T', 'arr_rev': 'R'}
+        'arr2dT': 'T', 'arr_rev': 'R', 'arr_int': 'I'}         # 'I': an integer ndarray
 
 
 def materialise(arg):
@@ -38,6 +40,8 @@ def materialise(arg):
         return (0.25 + 0.5 * np.arange(6, dtype=float)).reshape(2, 3).T
     if isinstance(arg, str) and arg == 'R':
         return np.array([0.5, 1.0, 2.5, 4.0])[::-1]
+    if isinstance(arg, str) and arg == 'I':
+        return np.arange(1, 6)
     return np.array(arg, dtype=float) if isinstance(arg, list) else arg
 UNITS = {'toKelvin': 'kelvin', 'toCelcius': 'degree_Celsius', 'toInvAngstrom': '1 / angstrom', 'toInvNanometer': '1 / nanometer',
          'toConcentration': 'mole / liter', 'toVolumeFraction': 'dimensionless'}
@@ -77,11 +81,12 @@ class InputModified(Exception):
 def call(uc, method, arg):
     a = materialise(arg)
     snap = np.array(a, dtype=float, copy=True)
+    dt = getattr(a, 'dtype', None)
     if method == 'toVolumeFraction':
         q = getattr(uc, method)(a, DIAM)
     else:
         q = getattr(uc, method)(a)
-    if not np.array_equal(np.asarray(a, dtype=float), snap):
+    if not np.array_equal(np.asarray(a, dtype=float), snap) or getattr(a, 'dtype', None) != dt:
         raise InputModified('%s overwrote the caller\'s argument array: %r -> %r' % (method, snap.tolist(), np.asarray(a).tolist()))
     return q
 
@@ -136,6 +141,20 @@ def case_conv(rec, c):
         for an, arg in ARGS.items():
             res[an] = check_call(rec, dict(c, method=method, arg=an), uc, method, an, arg, dc, dcu, ec, ecu)
             rec.trace()
+        # a result handed out earlier is the caller's: a second call with another array of the same shape must not change it
+        try:
+            q1 = call(uc, method, [0.5, 1.0, 2.5])
+            m1 = q1.magnitude
+            snap1 = np.array(m1, dtype=float, copy=True)
+            q2 = call(uc, method, [1.5, 3.0, 7.5])
+            rec.trans(2)
+            if not np.array_equal(np.asarray(m1, dtype=float), snap1):
+                rec.fail(dict(c, method=method), '%s: the array returned by the first call changed when the method was called again with another array of the same shape'
+                         % method, {'method': method, 'kind': 'aliasing'})
+            elif np.ndim(m1) and np.ndim(q2.magnitude) and np.shares_memory(np.asarray(m1), np.asarray(q2.magnitude)):
+                rec.fail(dict(c, method=method), '%s: two results share memory' % method, {'method': method, 'kind': 'aliasing'})
+        except Exception:
+            pass
         # linearity (affine for Celsius) from three scalar arguments, elementwise on arrays
         vals = []
         ok = True
